@@ -56,9 +56,21 @@ def check_sanitizer(ctx):
     rets = returns_of(f.node)
     acc = None
     n_ret = 0
+    shapes = set()
     for r in rets:
         n_ret += 1
         v = r.value
+        # a trailing newline may be appended to either kind of return
+        trailing = False
+        if isinstance(v, ast.BinOp) and isinstance(v.op, ast.Add) and \
+                is_const(v.right, '\n'):
+            v = v.left
+            trailing = True
+        if is_const(v) and isinstance(v.value, str) and v.value.endswith(
+                '\n') and '\n' not in v.value[:-1]:
+            v = ast.copy_location(ast.Constant(value=v.value[:-1]), v)
+            trailing = True
+        shapes.add(trailing)
         if is_const(v) and isinstance(v.value, str):
             ok = v.value.startswith('#') and '\n' not in v.value
             ctx.ob('C17.SANITIZER', ok, W(r), f.qual, 'return ' + U(v),
@@ -149,6 +161,7 @@ def check_sanitizer(ctx):
                    'unrecognised way of adding a line')
             ok_all = False
     ctx.floor('C17.SANITIZER', n_el, 3, 'line insertions')
+    f.sanitized_shapes = shapes or {False}
     return f, ok_all
 
 
@@ -225,18 +238,26 @@ def classify_source(expr_text, node):
     return 'UNKNOWN'
 
 
-def analyse_lines(segs):
-    """Returns list of problems [(kind, text)] for an abstract output."""
+def analyse_lines(segs, nl=False):
+    """Returns list of problems [(kind, text)] for an abstract output.
+    nl: the comment formatter's result ends with a newline."""
     problems = []
     line_start = True
     commented = False
     cur = ''
+    rule_lines = 0
 
     def lit(text):
         nonlocal line_start, commented, cur
         parts = text.split('\n')
         for i, part in enumerate(parts):
             if part:
+                if part.startswith('#"'):
+                    nonlocal rule_lines
+                    rule_lines += 1
+                    if not line_start:
+                        problems.append(('rule-line-not-at-line-start',
+                                         part[:40]))
                 if line_start:
                     commented = part.startswith('#')
                     if not commented:
@@ -255,8 +276,11 @@ def analyse_lines(segs):
                 if not line_start and not commented:
                     problems.append(('sanitized-in-uncommented-line',
                                      s.source))
-                commented = True
-                line_start = False
+                if nl:
+                    line_start, commented = True, False
+                else:
+                    commented = True
+                    line_start = False
             elif s.cls == 'SINGLE-LINE':
                 if line_start or not commented:
                     problems.append(('raw-value-outside-comment', s.source))
@@ -271,6 +295,9 @@ def analyse_lines(segs):
             if line_start or not commented:
                 problems.append(('raw-value-outside-comment', s.iter_text))
             line_start = False
+    if rule_lines != 1:
+        problems.append(('rule-line-count', '%d lines start with #"'
+                         % rule_lines))
     return problems
 
 
@@ -315,8 +342,9 @@ def check_lines(ctx, fmt, sanitizer, sanitizer_ok):
                     is not None else 'UNKNOWN'
         shape = shape_text(segs)
         shapes[shape] = shapes.get(shape, 0) + 1
-        for kind, what in analyse_lines(segs):
-            bad.setdefault((kind, what), (p, shape))
+        for nlv in sorted(getattr(sanitizer, 'sanitized_shapes', {False})):
+            for kind, what in analyse_lines(segs, nlv):
+                bad.setdefault((kind, what), (p, shape))
     ctx.count(n, [('C17.LINES', s) for s in list(shapes)[:64]])
     ctx.extra['formatter_paths'] = n
     ctx.extra['distinct_output_shapes'] = len(shapes)
@@ -332,7 +360,12 @@ def check_lines(ctx, fmt, sanitizer, sanitizer_ok):
             'sanitized-in-uncommented-line': 'formatted help text %s '
             'continues a line that is not a comment' % what,
             'join-with-newline': 'values of %s are joined with line breaks'
-            % what}[kind]
+            % what,
+            'rule-line-not-at-line-start': 'the rule line `%s...` does not '
+            'start on a line of its own (it is glued to the comment before '
+            'it): uncommenting it does not state the default' % what,
+            'rule-line-count': 'a section does not contain exactly one '
+            'commented rule line (%s)' % what}[kind]
         ctx.ob('C17.LINES', False, '%s:%d' % (F, p.outcome.line), fmt.qual,
                '%s: %s' % (kind, what), human + ' (path: %s)' % (
                    p.cond_text()[-200:]), witness={'shape': shape[:400]})
@@ -377,7 +410,7 @@ def check_rule_line(ctx, fmt):
                 if g is not None:
                     rr = returns_of(g.node)
                     if len(rr) == 1 and isinstance(rr[0].value, ast.Call) \
-                            and len(h.args) == 1 and U(
+                            and len(h.args) == 1 and rr[0].value.args and U(
                                 rr[0].value.args[0]) == g.params[0]:
                         inner = ast.Call(func=rr[0].value.func,
                                          args=[h.args[0]],
